@@ -139,6 +139,14 @@ def main():
         "leaves of the input are contiguous and coherent with the batch size (prefix property of C01)",
         "lazy stacks / tensorclasses / out= variants are exercised by the oracle only (extended domain), not modelled",
     ]
+    import c02_gen
+    try:
+        c02_gen.regenerate()
+        for k in c02_gen.changed_since_pin():
+            run.notes.append(f"transcribed source changed since it was pinned: {k} (re-read the model against it, then c02_gen.py --repin)")
+    except c02_gen.Untranslatable as e:
+        run.proof_broken.append(f"translator:C02Src:{e}")
+    run.trusted.append("harness/c02_gen.py (AST hashes of the transcribed functions; `transcribed_sources_unchanged` compares them with Model/C02Pins.lean on every run)")
     run.build_and_audit(["TdVerif.Props.C02"])
     drv = run.driver()
     rng = run.rng
@@ -179,6 +187,47 @@ def main():
         if len(reqs) >= 500:
             flush(run, drv, reqs)
     flush(run, drv, reqs)
+
+    # ---- 2b. HISTORIES: two single-result ops in a row (the second acts on the result of the first: non-contiguous views, erased / moved
+    # names, squeezed-away dims); model = `c02.chain`, implementation on the same provenance tree, plus the oracle on the second step
+    ch_cases, ch_lines = [], []
+    for i in range(400 if quick else 6000):
+        rank = rng.choice([1, 2, 2, 3, 3, 4])
+        bs = tuple(rng.choice((1, 2, 3)) for _ in range(rank))
+        spec = L.gen_tree(rng, bs, named=rng.random() < 0.5)
+        for _ in range(20):
+            op1 = L.gen_op(rng, bs, False)
+            if op1[0] in L.SINGLE:
+                break
+        else:
+            continue
+        try:
+            mid = L.call(L.build(spec), op1)
+        except Exception:  # noqa: BLE001
+            continue
+        bs1 = tuple(mid.batch_size)
+        for _ in range(20):
+            op2 = L.gen_op(rng, bs1, rng.random() < 0.1)
+            # torch: `view` needs compatible strides; after a transpose / permute / expand the leaves are not contiguous (outside C02)
+            if op2[0] == 'view' and op1[0] in ('transpose', 'permute', 'expand', 'unsqueeze', 'squeeze'):
+                continue
+            if op2[0] in L.SINGLE:
+                break
+        else:
+            continue
+        ch_cases.append((spec, op1, op2))
+        ch_lines.append(f'(c02.chain {L.op_sx(op1)} {L.op_sx(op2)} {L.spec_sx(spec)})')
+    for (spec, op1, op2), ans in zip(ch_cases, ask_chunked(drv, ch_lines)):
+        td = L.build(spec)
+        mid = L.call(td, op1)
+        impl, raw = L.run_impl(mid, op2)
+        if impl == ['self'] and mid is td:
+            impl = ['self']
+        model = parse_sx(ans)
+        run.case(('chain', str(op1), str(op2), L.spec_sx(spec)))
+        run.count('chain.ops', op1[0] + '>' + op2[0])
+        run.count('chain.outcome', impl[0] if impl[0] != 'err' else 'err:' + impl[1])
+        run.corr('td:chain', {'op1': list(op1), 'op2': list(op2), 'td': L.spec_sx(spec)}, impl, model)
 
     # ---- 3. exhaustive argument grid on small batch shapes (every dim incl. negative, every permutation, every split size, targets with -1)
     grid_shapes = [(), (1,), (2,), (0,), (1, 1), (2, 3), (1, 2), (3, 0)] if quick else L.all_shapes(2) + [(1, 1, 1), (2, 1, 3), (0, 2, 1), (3, 2, 2), (1, 3, 1)]
